@@ -5218,7 +5218,14 @@ class _InstancePrivate:
         self.values = {} if values is None else values
 
     def __getstate__(self):
-        return {slot: getattr(self, slot) for slot in self.__slots__}
+        state = {slot: getattr(self, slot) for slot in self.__slots__}
+        # an open batch, its queue and the names being synced belong to the
+        # object that is being copied, not to the copy
+        state['parameters_state'] = {
+            "BATCH_WATCH": False, "TRIGGER": False, "events": [], "watchers": []
+        }
+        state['syncing'] = set()
+        return state
 
     def __setstate__(self, state):
         for k, v in state.items():
